@@ -123,7 +123,8 @@ def _inline_one(fj, bi, gj):
         refd = _single_use_ref(fj, bi, a)
         if refd is not None and _only_dereferenced(gj, 1 + i):
             by_subst[L0 + 1 + i] = refd[0]
-            blocks[bi]["stmts"].remove(refd[1])       # the borrow itself is gone with its only use
+            for st_ in refd[1]:
+                blocks[bi]["stmts"].remove(st_)       # the borrow itself is gone with its only use
         else:
             blocks[bi]["stmts"].append({"k": "assign", "place": {"local": L0 + 1 + i, "proj": []}, "rv": {"k": "use", "op": a}, "span": span})
     blocks[bi]["term"] = {"k": "goto", "target": B0, "span": span}
@@ -188,7 +189,28 @@ def _single_use_ref(fj, bi, a):
     for st in stmts[at + 1:]:
         if st.get("k") == "assign" and st["place"]["local"] in mentioned and not st["place"]["proj"]:
             return None
-    return P, defs[0][1]
+    # a reborrow of a borrow made for this call (`_a = &mut X; _b = &mut (*_a); f(move _b)`) is a borrow of X
+    removed = [defs[0][1]]
+    for _ in range(3):
+        if not (P["proj"] and P["proj"][0].get("k") == "deref") or P["local"] <= fj.get("arg_count", 0):
+            break
+        r = P["local"]
+        rdefs, ruses = [], 0
+        for bj, b in enumerate(fj["blocks"]):
+            for st in b["stmts"]:
+                if st.get("k") == "assign" and st["place"]["local"] == r and not st["place"]["proj"]:
+                    rdefs.append((bj, st))
+                else:
+                    ruses += sum(1 for pl in _places(st) if pl["local"] == r)
+            ruses += sum(1 for pl in _places(b["term"]) if pl["local"] == r)
+        if len(rdefs) != 1 or rdefs[0][0] != bi or ruses != 1 or rdefs[0][1]["rv"].get("k") != "ref" or rdefs[0][1]["rv"].get("place") is None:
+            break
+        if stmts.index(rdefs[0][1]) > stmts.index(removed[-1]):
+            break
+        Q = rdefs[0][1]["rv"]["place"]
+        P = {"local": Q["local"], "proj": copy.deepcopy(Q["proj"]) + P["proj"][1:]}
+        removed.append(rdefs[0][1])
+    return P, removed
 
 
 def _only_dereferenced(gj, pl):
